@@ -80,6 +80,10 @@ namespace cnl::_impl {
                 if (!oob(output.significand)) {
                     output.significand *= InRadix;
                     in_exponent--;
+                } else {
+                    // out of precision: drop the least significant digit
+                    output.significand /= OutRadix;
+                    output.exponent++;
                 }
             }
         }
